@@ -232,6 +232,15 @@ def _impl_op(case):
         from sparse.numba_backend._compressed.convert import uncompress_dimension
         return {"rows": [[int(v) for v in r.indptr], [int(v) for v in uncompress_dimension(r.indptr)]],
                 "dt": str(r.indptr.dtype), "ptrs": ptrs, "shape": list(r.shape)}
+    if k == "gtrans":
+        # multi-step: join narrow-index GCXS members (indices stay narrow, nnz grows), then re-compress
+        gs = [sparse.GCXS.from_coo(_coo(shape, coords, t), compressed_axes=(0,)) for (shape, coords) in case["ops"]]
+        j = sparse.concatenate(gs, axis=0)
+        xdt = str(j.indices.dtype)
+        r = j.change_compressed_axes((1,))
+        return {"rows": [[int(v) for v in r.indices], [int(v) for v in r.indptr]], "dt": str(r.indptr.dtype),
+                "dt_indices": str(r.indices.dtype), "xdt": xdt, "joined_nnz": int(j.nnz),
+                "joined_indptr_dt": str(j.indptr.dtype)}
     if k == "uncompress":
         from sparse.numba_backend._compressed.convert import uncompress_dimension
         p = np.array(case["indptr"], dtype=t)
@@ -354,6 +363,30 @@ def _diff_calls():
         "gcxs_stack": lambda x: sparse.stack([gcxs(x), gcxs(x)], axis=0),
         "gcxs_dot": lambda x: sparse.dot(gcxs(x), gcxs(x).T) if x.ndim == 2 else sparse.dot(gcxs(x), gcxs(x)),
     }
+
+    # multi-step sequences (how="member3d"): x is one member; k copies are joined so that the number of stored
+    # elements crosses the limit of the index type while every extent stays small, THEN the result is
+    # re-compressed / transposed / reshaped / reduced (convert._transpose, _1d_reshape)
+    def member(x):
+        return sparse.GCXS.from_coo(x, compressed_axes=(0,))
+
+    def joined(x, **kw):
+        return sparse.concatenate([member(x)] * 3, axis=0, **kw)
+    n0 = lambda x: 3 * x.shape[0]  # noqa: E731
+    calls.update({
+        "ms_join_dense": lambda x: joined(x).todense(),
+        "ms_join_ca1_dense": lambda x: joined(x, compressed_axes=(1,)).todense(),
+        "ms_join_ca1_sum": lambda x: joined(x, compressed_axes=(1,)).sum(axis=(0, 2)),
+        "ms_join_cca2": lambda x: joined(x).change_compressed_axes((2,)),
+        "ms_join_cca2_tocoo": lambda x: joined(x).change_compressed_axes((2,)).tocoo(),
+        "ms_join_T": lambda x: joined(x).transpose((2, 0, 1)),
+        "ms_join_T_dense": lambda x: joined(x).transpose((2, 0, 1)).todense(),
+        "ms_join_reshape_sum": lambda x: joined(x).reshape((x.shape[1], n0(x), x.shape[2])).sum(axis=(1, 2)),
+        "ms_join_flat": lambda x: joined(x).reshape((-1,)),
+        "ms_stack_cca": lambda x: sparse.stack([member(x)] * 3, axis=0).change_compressed_axes((1,)).tocoo(),
+        "ms_join_sum0": lambda x: joined(x).sum(axis=0),
+        "ms_join_max12": lambda x: joined(x).max(axis=(1, 2)),
+    })
     return calls
 
 
@@ -382,6 +415,12 @@ def impl_diff(case):
                     x = sparse.COO(x.coords, np.arange(1, x.nnz + 1), shape=x.shape, sorted=True, has_duplicates=False)
                 elif how == "full":
                     d = np.arange(1, int(np.prod(shape)) + 1).reshape(shape) % 251 + 1
+                    x0 = sparse.COO.from_numpy(d)
+                    x = sparse.COO(x0.coords.astype(tt), x0.data, shape=x0.shape, sorted=True, has_duplicates=False)
+                elif how == "member3d":
+                    rs = np.random.default_rng(42)
+                    d = rs.integers(1, 10, size=tuple(shape))
+                    d[rs.random(d.shape) >= coords[0] / 100.0] = 0      # coords[0]: density in percent
                     x0 = sparse.COO.from_numpy(d)
                     x = sparse.COO(x0.coords.astype(tt), x0.data, shape=x0.shape, sorted=True, has_duplicates=False)
                 else:
@@ -513,6 +552,21 @@ def gen_op_cases(tier, rng):
                 lin = sorted(rng.sample(range(rows * cols), nn))
                 ops.append(([rows, cols], [[l // cols, l % cols] for l in lin]))
             cases.append(dict(kind="gjoin", t=t, ops=ops, how="concat"))
+        # ---- multi-step: members whose total nnz crosses the limit of t while every extent stays small, then
+        #      change_compressed_axes (convert._transpose)
+        lim = min(thi(t), 255)
+        for _ in range(3 * reps):
+            cols = rng.choice([3, 6, 8])
+            target = rng.choice([lim - 1, lim, lim + 1, lim + 20] if tbits(t)[0] == 8 else [20, 40])
+            nmem = rng.choice([2, 3])
+            ops, left = [], target
+            for i in range(nmem):
+                nn = left // (nmem - i)
+                left -= nn
+                rows = max(2, -(-nn // cols) + rng.choice([0, 1, 3]))
+                lin = sorted(rng.sample(range(rows * cols), min(nn, rows * cols)))
+                ops.append(([rows, cols], [[l // cols, l % cols] for l in lin]))
+            cases.append(dict(kind="gtrans", t=t, ops=ops))
         for nrows in [n for n in [3, 127, 128, 129, 255, 256, 257, 300] if n <= thi(t)]:   # kernel level, in its domain
             ptr = [0] * nrows + [1]
             ptr[nrows // 2:] = [1] * (len(ptr) - nrows // 2)
@@ -561,7 +615,9 @@ def gen_prim_cases(tier, rng):
 
 # calls whose cost is dominated by compiling Numba kernels for the index dtype: in the quick tier they run for the
 # narrowest signed / unsigned types, one 16-bit type and uint64 only (all eight types in the thorough tier)
-JIT_HEAVY = {"gcxs_fancy_rep", "sort", "dot", "gcxs_dot", "getitem_fancy", "getitem_last", "getitem_int", "gcxs_getitem", "gcxs_getitem_neg",
+JIT_HEAVY = {"ms_join_dense", "ms_join_ca1_dense", "ms_join_ca1_sum", "ms_join_cca2", "ms_join_cca2_tocoo", "ms_join_T",
+             "ms_join_T_dense", "ms_join_reshape_sum", "ms_join_flat", "ms_stack_cca", "ms_join_sum0", "ms_join_max12",
+             "gcxs_fancy_rep", "sort", "dot", "gcxs_dot", "getitem_fancy", "getitem_last", "getitem_int", "gcxs_getitem", "gcxs_getitem_neg",
              "gcxs_stack", "gcxs_reshape", "gcxs_concat", "gcxs_concat_dense", "to_gcxs_back", "gcxs_T", "gcxs_sum0",
              "sum_all", "min_last", "mul_self", "add_bcast", "diagonal", "diagonal_1"}
 QUICK_HEAVY_TYPES = {"int8", "uint8", "uint16", "uint64"}
@@ -569,7 +625,20 @@ QUICK_HEAVY_TYPES = {"int8", "uint8", "uint16", "uint64"}
 
 def gen_diff_items(tier, rng):
     items = []
-    names = list(_diff_calls().keys())
+    allnames = list(_diff_calls().keys())
+    names = [n for n in allnames if not n.startswith("ms_")]
+    # multi-step stream: member shape and density per index width (3 members are joined):
+    #   8-bit  (8,7,6) = 336 cells: int8 30% (~100 <= 127, 3x > 127), uint8 50% (~168 <= 255, 3x > 255)
+    #   16-bit (8,70,60) = 33600 cells at 90% (~30240 <= 32767, 3x > 65535)
+    for t in TYPES:
+        if tier == "quick" and t not in QUICK_HEAVY_TYPES and t != "int16":
+            continue
+        bits = tbits(t)[0]
+        shape, dens = ([8, 7, 6], 30 if t == "int8" else 50) if bits == 8 else ([8, 70, 60], 90) if bits == 16 \
+            else ([8, 7, 6], 50)
+        for name in allnames:
+            if name.startswith("ms_"):
+                items.append((name, shape, [dens], t, "member3d"))
     for t in TYPES:
         shapes = []
         for n in ([100, 127] if tbits(t) == (8, True) else [127, 128, 200, 255] if tbits(t)[0] == 8 else
@@ -670,6 +739,17 @@ def op_literal(case, res):
         oc = f"(CGcxsJoin [{'; '.join(ptrs)}])"
     elif k == "uncompress":
         oc = f"(CUncompress {zl(case['indptr'])})"
+    elif k == "gtrans":
+        if "xdt" not in res:
+            return None
+        cols = case["ops"][0][0][1]
+        pos, base = [], 0
+        for shape, coords in case["ops"]:
+            pos += [(c[1], base + c[0]) for c in coords]
+            base += shape[0]
+        pos.sort()
+        oc = f"(CTranspose {vZ(cols)} {vZ(base)} {zl([p[0] for p in pos])} {zl([p[1] for p in pos])})"
+        return vpair(vity(res["xdt"]), oc, iout_literal(res))
     else:
         raise ValueError(k)
     return vpair(vity(t), oc, iout_literal(res))
@@ -806,7 +886,8 @@ def campaign(build, tier, seed, report, budget=1):
     # branch tags of the op stream (computed in Coq together with the verdicts)
     tag_hist = {}
     names = {1: "concat", 2: "flip", 3: "roll", 4: "roll_tuple", 5: "getitem", 6: "reshape", 7: "reduce", 8: "triu_tril",
-             9: "kron", 10: "pad", 11: "stack", 12: "ctor_idx_dtype", 13: "gcxs_from_coo", 14: "gcxs_join", 15: "uncompress"}
+             9: "kron", 10: "pad", 11: "stack", 12: "ctor_idx_dtype", 13: "gcxs_from_coo", 14: "gcxs_join", 15: "uncompress",
+             16: "gcxs_join_then_transpose"}
     sub = {0: "equal", 1: "guard_ValueError", 2: "outside_domain"}
     assert len(tagged) == len(olits), (len(tagged), len(olits))
     for _j, v in tagged:
@@ -863,6 +944,9 @@ def campaign(build, tier, seed, report, budget=1):
     cov["streams"] = {"prim": len(pcases), "prim_float_inexact_skipped": inexact, "op": len(ocases), "op_judged": len(olits),
                       "diff": d_total, "diff_identical": d_same, "diff_allowed_ValueError": d_valueerr,
                       "diff_both_raise_same": d_bothexc}
+    cov["multi_step"] = ("op: join of narrow-index GCXS members (total nnz just below/at/above the 8-bit limits, extents "
+                         "small) followed by change_compressed_axes, judged against Model m_transpose; diff: 3 members joined "
+                         "(nnz crossing 127/255/32767/65535) then todense / re-compress / transpose / reshape / reductions")
     cov["differential_only"] = ("stream diff: elementwise/broadcast, dot, sort, diagonal, transpose, broadcast_to, "
                                 "GCXS getitem/sum/T/reshape/dot and sparse.random(idx_dtype=) have no Coq model here")
     cov["branch_tags"] = dict(sorted(tag_hist.items()))
